@@ -35,7 +35,13 @@ Expand(op, id, sig, grace, tag) ==
             [q |-> "U", ms |-> <<Msg("Stop", 0, 0, 0, 0), Msg("Delete", id, 0, 0, 0)>>]
       [] op = "to_wait" -> [q |-> "H", ms |-> <<Msg("NextEnding", id, 0, 0, 0)>>]
       [] op = "run"     -> [q |-> "N", ms |-> <<Msg("SyncFunc", id, 0, 0, 0)>>]
+      \* run_async(): `grace` carries how long the returned future takes
+      [] op = "run_async" -> [q |-> "N", ms |-> <<Msg("AsyncFunc", id, 0, grace, 0)>>]
       [] op = "set_hook" -> [q |-> "N", ms |-> <<Msg("SetSyncSpawnHook", id, 0, 0, tag)>>]
+      [] op = "set_async_hook" -> [q |-> "N", ms |-> <<Msg("SetAsyncSpawnHook", id, 0, 0, tag)>>]
+      [] op = "unset_hook" -> [q |-> "N", ms |-> <<Msg("UnsetSpawnHook", id, 0, 0, 0)>>]
+      [] op = "set_async_error_handler" ->
+            [q |-> "N", ms |-> <<Msg("SetAsyncErrorHandler", id, 0, 0, tag)>>]
       [] op = "set_error_handler" ->
             [q |-> "N", ms |-> <<Msg("SetSyncErrorHandler", id, 0, 0, tag)>>]
       [] op = "unset_error_handler" ->
